@@ -95,7 +95,7 @@ class QNoiseScheduler(tf.keras.callbacks.Callback):
     """
     if freq < self.start:
       qnoise_factor = 0.0
-    elif freq <= self.finish and self.start != self.finish:
+    elif freq < self.finish and self.start != self.finish:
       val = float(self.finish - freq) / float(self.finish - self.start)
       qnoise_factor = 1.0 - np.power(val, self.exponent)
     else:
